@@ -1674,6 +1674,40 @@ def targreduce(t, dim, keepdim, which):
     Trusted contract (torch docs): values[i] is the max over the axis; indices[i] is *an*
     index attaining it.  NaN: if any element is NaN the max is NaN (torch propagates)."""
     dim = dim % t.rank
+    first_index = getattr(ctx.cur(), "observed_refinements", False)
+    # max/argmax is a function: reducing the same (unmodified) storage through the same view
+    # twice gives the same values and the same indices.  The memo key contains the defining
+    # term of the view at a canonical symbolic index, so different views never collide.
+    owner = t.owner()
+    try:
+        canon = [z3.Int("argred_canon_%d" % k) for k in range(t.rank)]
+        probe = t.at(canon)
+        memo_key = (getattr(owner, "version", 0), _key(list(t.shape)), dim, bool(keepdim), which, bool(first_index))
+    except Exception:
+        memo_key = None
+    memo = owner.__dict__.setdefault("_argred_memo", {})
+    if memo_key is not None:
+        for (pr, res) in memo.get(memo_key, []):
+            if _same_struct(pr, probe):
+                return res
+    res = _targreduce_impl(t, dim, keepdim, which, first_index)
+    if memo_key is not None:
+        memo.setdefault(memo_key, []).append((probe, res))
+    return res
+
+
+def _same_struct(x, y):
+    """Structural identity of two element terms (z3 `eq` is a constant-time DAG comparison)."""
+    if isinstance(x, SFloat) and isinstance(y, SFloat):
+        return _same_struct(x.nan, y.nan) and _same_struct(x.inf, y.inf) and _same_struct(x.val, y.val)
+    if isinstance(x, z3.ExprRef) and isinstance(y, z3.ExprRef):
+        return x.eq(y)
+    if isinstance(x, z3.ExprRef) or isinstance(y, z3.ExprRef) or isinstance(x, SFloat) or isinstance(y, SFloat):
+        return False
+    return type(x) == type(y) and (x == y or (x != x and y != y))
+
+
+def _targreduce_impl(t, dim, keepdim, which, first_index):
     n = t.shape[dim]
     src = t.reader()
     keep = [k for k in range(t.rank) if k != dim]
@@ -1682,7 +1716,6 @@ def targreduce(t, dim, keepdim, which):
     better = (lambda a, b: f_lt(a, b)) if which == "max" else (lambda a, b: f_lt(b, a))
     if not isf:
         better = (lambda a, b: i_lt(a, b)) if which == "max" else (lambda a, b: i_lt(b, a))
-    first_index = getattr(ctx.cur(), "observed_refinements", False)
 
     def kidx_of(idx):
         return [idx[k] for k in keep] if keepdim else list(idx)
@@ -1783,13 +1816,15 @@ def targreduce(t, dim, keepdim, which):
             s0.add(z3.ForAll(qk, zbool(b_implies(b_and(krange, i_lt(0, n)), b_and(ga >= 0, i_lt(ga, n), same(gxa, gv)))),
                              patterns=[Vv(*qk)]))
 
+    # torch raises at the call (not per element) when the reduced axis is empty
+    ctx.cur().require(i_lt(0, n), "IndexError", "max over an empty axis")
+
     def get(idx):
         kidx = kidx_of(idx)
         zk = [zint(i) for i in kidx]
         key = tuple(i.get_id() for i in zk)
         if key in inst:
             return inst[key]
-        ctx.cur().require(i_lt(0, n), "IndexError", "max over an empty axis")
         v = SFloat(Vn(*zk) if nk else Vn, False, Vv(*zk) if nk else Vv)
         a = A(*zk) if nk else A
         s = sink()
@@ -1870,6 +1905,8 @@ def _targreduce_merged(t, dim, keepdim, which, keep, out_shape, first_index):
     if nk:
         s0.add(z3.ForAll(qk, zbool(facts(qk, b_and(krange, nonempty))), patterns=[Vv(*qk)]))
     inst = {}
+    # torch raises at the call (not per element) when the reduced axes are empty
+    ctx.cur().require(nonempty, "IndexError", "max over an empty axis")
 
     def get(idx):
         kidx = [idx[k] for k in keep] if keepdim else list(idx)
@@ -1877,7 +1914,6 @@ def _targreduce_merged(t, dim, keepdim, which, keep, out_shape, first_index):
         key = tuple(i.get_id() for i in zk)
         if key in inst:
             return inst[key][1:]
-        ctx.cur().require(nonempty, "IndexError", "max over an empty axis")
         s0.add(zbool(facts(zk, True)))
         a = args(zk)
         # row-major flat index and the facts recovering its components
